@@ -49,6 +49,15 @@ def grammar_cases(ctx):
     cases.append([("s", ["0" * 4298 + "31"]), ("t", "long")])                                      # 4300 digits: int() accepts
     ctx.exhaustive.append("grammar: item lists <=3 over 28 items + all 625 two-parameter sequences in two contexts: %d" % len(cases))
     r = ctx.rng
+    # long grammar strings: hundreds of sequences (anything that handles only the first k sequences shows up here)
+    for n in ([17, 18, 33, 100, 300, 1000] + ([16, 64, 65, 257, 2000] if ctx.thorough else [])):
+        for _ in range(3 if ctx.thorough and n <= 300 else 1):
+            items = []
+            for i in range(n):
+                items.append(("s", ["0" * r.choice([0, 0, 1]) + str(r.choice(CODES)) for _ in range(r.choice([0, 1, 1, 1, 2, 3]))]))
+                items.append(("t", "plain " * 30 if r.random() < 0.03 else r.choice(TEXTS)))
+            cases.append(items)
+    ctx.exhaustive.append("long grammar strings with 17..1000 sequences")
     for _ in range(20000 if ctx.thorough else 3000):
         items = []
         for _ in range(r.randint(0, 6)):
@@ -201,7 +210,7 @@ def pyte_crosscheck(ctx, gc):
             continue
         if not all(k == "s" or (v.isascii() and v.isprintable()) for k, v in c):
             continue
-        if not any(k == "s" for k, _ in c) or (i % 7 and len(c) < 4):
+        if not any(k == "s" for k, _ in c) or (i % 7 and len(c) < 4) or len(c) > 12:
             continue
         picked += 1
         s = show(c)
@@ -291,11 +300,30 @@ def canon_eff_cells(reply):
     return reply
 
 
+class Lazy:
+    """a canonical form computed only when the raw replies differ (equal raw replies have equal canonical forms)"""
+    __slots__ = ("reply", "fn")
+
+    def __init__(self, reply, fn):
+        self.reply, self.fn = reply, fn
+
+    def __eq__(self, other):
+        return isinstance(other, Lazy) and (self.reply == other.reply or self.fn(self.reply) == other.fn(other.reply))
+
+    def __ne__(self, other):
+        return not self.__eq__(other)
+
+    __hash__ = None
+
+    def __repr__(self):
+        return repr(self.fn(self.reply))
+
+
 def tie2(ctx, name, cases, line_fn, impl_fn):
     """C05 speaks about the characters and the formatting ON EVERY CHARACTER of from_str's result: the property-level tie
     compares per-character effective cells; how the result is cut into runs, explicit-False entries (and the exact bytes
     of str(f) it was parsed from) are representation."""
-    ctx.tie(name, cases, line_fn, impl_fn, canon_eff_cells, canon_eff_cells)
+    ctx.tie(name, cases, line_fn, impl_fn, lambda r: Lazy(r, canon_eff_cells), lambda r: Lazy(r, canon_eff_cells))
     ctx.tie(name + "-runs", cases, line_fn, impl_fn, level="representation")
 
 
